@@ -7,12 +7,17 @@ import Verif.Model.Constraints
   stages). The specification is `specAccept`: RFC 5280 §6.1.4(g), every certificate of the path
   applied on its own, with the subtree membership of today's crypto/x509.
 
-  * `excluded_exact`        the union of the excluded subtrees is exact
-  * `excluded_sound_*`      a name in an excluded subtree of any certificate is never allowed
-  * `permitted_refuted`     D8: the union of permitted subtrees accepts what RFC 5280 rejects
-  * `permitted_partial`     … and is sound when at most one certificate permits each kind
-  * `engine_eq_spec`        the per-certificate engine (fix candidate) equals the specification
-  * `rootdrop_refuted`, `v4mapped_refuted`, `leadingdot_refuted`   three more divergences
+  State of the code: `fix:` 4a0d6e3 (per-certificate evaluation) and 94a532b (issuing root found
+  by subject + signature) are in; theorems about `validate (New chain)` (the union engine) and
+  `chainFor` (the key-identifier selection) are kept as *historic* statements.
+
+  * `engine_eq_spec`        the engine under test (`validateF ∘ NewF`) equals the specification
+  * `fixed_eq_percert`      … because it computes the per-certificate evaluation exactly
+  * `authority_sound`       allow ⇒ acceptable on intermediates ++ issuing root, key ids or not
+  * `excluded_exact`, `excluded_sound_*`   exclusion over the flat lists (still used when at most
+                            one certificate is constrained)
+  * `permitted_refuted` (historic, D8), `permitted_partial`, `rootdrop_refuted` (historic)
+  * `v4mapped_refuted`, `leadingdot_refuted`   divergences of the matchers that remain
   * `validate_total`        no name makes the engine abort on subtrees a parsed certificate can carry
 -/
 namespace Verif.Constraints
@@ -255,7 +260,8 @@ example : validate (New [{}, { xDNS := [s "bad.example.com"] }]) { dns := [s "x.
 def d8Chain : List Level := [{ pDNS := [s "sub.example.com"] }, { pDNS := [s "example.com"] }]
 def d8Names : Names := { dns := [s "other.example.com"] }
 
-/-- **permitted_refuted** (D8): the engine as coded allows a name the specification rejects:
+/-- **permitted_refuted** (D8, historic: the union engine `validate (New chain)` that was all
+    of `Validate` before 4a0d6e3): it allows a name the specification rejects:
     `other.example.com` lies in the root's permitted subtree but not in the intermediate's; the
     engine asks for *one* permitted subtree of the concatenated list. -/
 theorem permitted_refuted :
@@ -443,7 +449,7 @@ structure AllDecided (chain : List Level) (n : Names) : Prop where
   email : ∀ a ∈ n.emails, ∀ mb, parseMailbox a = some mb → ∀ l ∈ chain, Decided (matchEmail mb) l.pEmail
   uri : ∀ u ∈ n.uris, ∀ l ∈ chain, Decided (matchURI u) l.pURI
 
-/-- **engine_eq_spec**: evaluating every certificate of the chain with its own engine
+/-- **percert_eq_spec**: evaluating every certificate of the chain with its own engine
     (`validatePerCert`) allows exactly the names RFC 5280 accepts, for every placement of
     permitted and excluded subtrees on any number of levels. Hypotheses: the two generations of
     matchers agree on the names at hand (`Agree`) and no subtree errors out (`AllDecided`); the
@@ -539,7 +545,7 @@ theorem percert_complete (chain : List Level) (n : Names) (hA : Agree chain n)
       rw [nameOk_congr _ _ _ _ (hA.uri u hu l hl)]
       exact h4 u hu
 
-theorem engine_eq_spec (chain : List Level) (n : Names) (hA : Agree chain n)
+theorem percert_eq_spec (chain : List Level) (n : Names) (hA : Agree chain n)
     (hD : AllDecided chain n) :
     validatePerCert chain n = .allow ↔ specAccept chain n = true :=
   ⟨percert_sound chain n hA, percert_complete chain n hA hD⟩
@@ -592,9 +598,10 @@ theorem percert_le_union_dns (chain : List Level) (d : Str) :
 
 /-! ## 5. Three more places where the engine as coded and the verifier part -/
 
-def caCert (sub iss ski aki : String) (nc : Level) : Cert := ⟨s sub, s iss, s ski, s aki, nc⟩
+def caCert (sub iss ski aki : String) (nc : Level) (signsLast : Bool := false) : Cert :=
+  ⟨s sub, s iss, s ski, s aki, nc, signsLast⟩
 
-/-- **rootdrop_refuted**: `authority.init` adds the configured root to the engine only when the
+/-- **rootdrop_refuted** (historic: the selection before 94a532b): `authority.init` added the configured root to the engine only when the
     last intermediate's authority key identifier equals the root's subject key identifier.
     An intermediate issued without that extension (RFC 5280 path building does not need it)
     leaves the root's constraints out: the root excludes `bad.example.com`, the CA allows it. -/
@@ -808,5 +815,199 @@ example : AllDecided okChain okNames where
     rcases hl with rfl | rfl | rfl <;> simp at hc <;> subst hc <;> decide
   email := by intro a ha; cases ha
   uri := by intro u hu; cases hu
+
+/-! ## 8. The engine as it is now (after 4a0d6e3) is the per-certificate evaluation -/
+
+theorem has_false_eq (l : Level) (h : l.has = false) : l = {} := by
+  cases l
+  simp [Level.has] at h
+  simp [h]
+
+theorem validate_nohas (l : Level) (n : Names) (h : l.has = false) : validate l n = .allow := by
+  unfold validate; simp [h]
+
+theorem New_nil : New [] = {} := by simp [New]
+
+theorem New_cons_empty (ch : List Level) : New (({} : Level) :: ch) = New ch := by simp [New]
+
+theorem New_nohas (ch : List Level) (h : ∀ l ∈ ch, l.has = false) : New ch = {} := by
+  induction ch with
+  | nil => exact New_nil
+  | cons l ch ih =>
+    have := has_false_eq l (h l List.mem_cons_self)
+    subst this
+    rw [New_cons_empty]
+    exact ih (fun x hx => h x (List.mem_cons_of_mem _ hx))
+
+theorem New_cons_nohas (l : Level) (ch : List Level) (h : ∀ x ∈ ch, x.has = false) :
+    New (l :: ch) = l := by
+  have h0 := New_nohas ch h
+  have : New (l :: ch) = ⟨l.pDNS ++ (New ch).pDNS, l.xDNS ++ (New ch).xDNS, l.pIP ++ (New ch).pIP,
+      l.xIP ++ (New ch).xIP, l.pEmail ++ (New ch).pEmail, l.xEmail ++ (New ch).xEmail,
+      l.pURI ++ (New ch).pURI, l.xURI ++ (New ch).xURI⟩ := by simp [New]
+  rw [this, h0]
+  cases l; simp
+
+theorem validatePerCert_nohas (ch : List Level) (n : Names) (h : ∀ x ∈ ch, x.has = false) :
+    validatePerCert ch n = .allow := by
+  unfold validatePerCert
+  rw [firstBad_allow_iff]
+  intro l hl
+  rw [New_singleton]
+  exact validate_nohas l n (h l hl)
+
+/-- with at most one constrained certificate the flat engine *is* the per-certificate
+    evaluation, verdict for verdict (same refusal, same kind) -/
+theorem union_eq_percert_of_le_one (chain : List Level) (n : Names)
+    (h : (chain.filter (·.has)).length ≤ 1) : validate (New chain) n = validatePerCert chain n := by
+  induction chain with
+  | nil => rw [New_nil, validate_nohas _ _ (by decide)]; rfl
+  | cons l ch ih =>
+    cases hh : l.has
+    · have := has_false_eq l hh
+      subst this
+      rw [New_cons_empty]
+      have hf : (ch.filter (·.has)).length ≤ 1 := by simpa [List.filter, hh] using h
+      rw [ih hf]
+      unfold validatePerCert
+      conv => rhs; unfold firstBad
+      rw [New_singleton, validate_nohas _ _ hh]
+    · have hf : ch.filter (·.has) = [] := by
+        simp [List.filter, hh] at h
+        exact List.filter_eq_nil_iff.2 (by simpa using h)
+      have hno : ∀ x ∈ ch, x.has = false := by
+        intro x hx
+        have := List.filter_eq_nil_iff.1 hf x hx
+        simpa using this
+      rw [New_cons_nohas l ch hno]
+      unfold validatePerCert
+      conv => rhs; unfold firstBad
+      rw [New_singleton]
+      have := validatePerCert_nohas ch n hno
+      unfold validatePerCert at this
+      cases hv : validate l n <;> simp [this]
+
+theorem firstBad_filter {α : Type} (f : α → Verdict) (p : α → Bool) (l : List α)
+    (h : ∀ a ∈ l, p a = false → f a = .allow) : firstBad f (l.filter p) = firstBad f l := by
+  induction l with
+  | nil => rfl
+  | cons a as ih =>
+    have ih' := ih (fun x hx => h x (List.mem_cons_of_mem _ hx))
+    cases hp : p a
+    · rw [List.filter_cons_of_neg (by simp [hp])]
+      conv => rhs; unfold firstBad
+      rw [h a List.mem_cons_self hp, ih']
+    · rw [List.filter_cons_of_pos hp]
+      unfold firstBad
+      rw [ih']
+
+theorem map_New_singleton (chain : List Level) : (chain.map fun l => New [l]) = chain := by
+  induction chain with
+  | nil => rfl
+  | cons l ch ih => simp [New_singleton]
+
+/-- **fixed_eq_percert**: `constraints.New` + `Validate` as they are now compute exactly the
+    per-certificate evaluation — same verdict, and a refusal is the first refusing certificate's
+    in chain order — whether or not the `perCert` engines are populated. -/
+theorem fixed_eq_percert (chain : List Level) (n : Names) :
+    validateF (NewF chain) n = validatePerCert chain n := by
+  unfold validateF NewF
+  simp only [map_New_singleton]
+  cases hflat : (New chain).has
+  · have hno : ∀ l ∈ chain, l.has = false := by
+      intro l hl
+      cases hl' : l.has
+      · rfl
+      · rw [has_of_mem hl hl'] at hflat; cases hflat
+    simp [validatePerCert_nohas chain n hno]
+  · simp only [Bool.not_true, Bool.false_eq_true, if_false]
+    have hpc : firstBad (fun c => validate c n) (chain.filter (·.has)) = validatePerCert chain n := by
+      unfold validatePerCert
+      have : (fun l => validate (New [l]) n) = fun c => validate c n := by
+        funext l; rw [New_singleton]
+      rw [this]
+      exact firstBad_filter _ _ _ (fun a _ ha => validate_nohas a n ha)
+    by_cases h1 : chain.length > 1
+    · by_cases h2 : (chain.filter (·.has)).length > 1
+      · have hne : (chain.filter (·.has)).isEmpty = false := by
+          cases hq : chain.filter (·.has) with
+          | nil => rw [hq] at h2; simp at h2
+          | cons _ _ => rfl
+        simp [h1, h2, hne, hpc]
+      · simp [h1, h2]
+        exact union_eq_percert_of_le_one chain n (by omega)
+    · simp [h1]
+      apply union_eq_percert_of_le_one
+      have := List.length_filter_le (·.has) chain
+      omega
+
+/-- **engine_eq_spec** (the property theorem for the engine under test): what
+    `constraints.New(chain...).Validate` allows is exactly what RFC 5280 §6.1.4(g) accepts, for
+    every placement of permitted and excluded subtrees on any number of certificates. -/
+theorem engine_eq_spec (chain : List Level) (n : Names) (hA : Agree chain n)
+    (hD : AllDecided chain n) :
+    validateF (NewF chain) n = .allow ↔ specAccept chain n = true := by
+  rw [fixed_eq_percert]; exact percert_eq_spec chain n hA hD
+
+theorem engine_sound (chain : List Level) (n : Names) (hA : Agree chain n) :
+    validateF (NewF chain) n = .allow → specAccept chain n = true := by
+  rw [fixed_eq_percert]; exact percert_sound chain n hA
+
+/-- the D8 witness is refused now, by the intermediate (first in chain order) -/
+example : validateF (NewF d8Chain) d8Names = .deny .notPermitted .dns := by decide
+example : validateF (NewF d8Chain) { dns := [s "a.sub.example.com"] } = .allow := by decide
+/-- hypotheses of `engine_eq_spec` on a chain with permitted subtrees on two levels -/
+example : validateF (NewF okChain) okNames = .allow ∧ specAccept okChain okNames = true := by decide
+
+/-! ## 9. Root selection as it is now (after 94a532b) -/
+
+/-- every configured root that issued the last intermediate (subject matches, signature
+    verifies) is part of the engine's chain, whatever the key identifiers say, together with all
+    intermediates -/
+theorem rootsel_complete (ints roots : List Cert) (last : Cert) (hl : ints.getLast? = some last)
+    (r : Cert) (hr : r ∈ roots) (hs : last.issuer = r.subject) (hv : r.signsLast = true) :
+    ∃ ch, chainForSig ints roots = some ch ∧ (∀ c ∈ ints ++ [r], c ∈ ch) := by
+  unfold chainForSig; rw [hl]
+  refine ⟨_, rfl, ?_⟩
+  intro c hc
+  rcases List.mem_append.1 hc with h | h
+  · exact List.mem_append_left _ h
+  · simp at h; subst h
+    apply List.mem_append_right
+    exact List.mem_filter.2 ⟨hr, by simp [hs, hv]⟩
+
+theorem specAccept_mono (ch sub : List Level) (n : Names) (h : ∀ l ∈ sub, l ∈ ch) :
+    specAccept ch n = true → specAccept sub n = true := by
+  unfold specAccept
+  simp only [List.all_eq_true]
+  intro hc l hl
+  exact hc l (h l hl)
+
+/-- **authority_sound**: if the authority allows the names, they are acceptable under RFC 5280
+    on the path a relying party validates — all intermediates and the configured root that
+    issued the last one — with or without authority key identifiers. -/
+theorem authority_sound (ints roots : List Cert) (n : Names) (last r : Cert)
+    (hl : ints.getLast? = some last) (hr : r ∈ roots) (hs : last.issuer = r.subject)
+    (hv : r.signsLast = true)
+    (hA : ∀ ch, chainForSig ints roots = some ch → Agree (ch.map (·.nc)) n) :
+    authorityValidateF ints roots n = .allow → specAccept ((ints ++ [r]).map (·.nc)) n = true := by
+  obtain ⟨ch, hch, hsub⟩ := rootsel_complete ints roots last hl r hr hs hv
+  intro h
+  unfold authorityValidateF at h
+  rw [hch] at h
+  have := engine_sound _ n (hA ch hch) h
+  apply specAccept_mono _ _ n _ this
+  intro l hl'
+  obtain ⟨c, hc, rfl⟩ := List.mem_map.1 hl'
+  exact List.mem_map.2 ⟨c, hsub c hc, rfl⟩
+
+/-- the `rootdrop_refuted` witness under the new selection: refused -/
+example : authorityValidateF [caCert "int" "root" "k1" "" {}]
+    [caCert "root" "root" "k0" "" { xDNS := [s "bad.example.com"] } true] { dns := [s "x.bad.example.com"] }
+    = .deny .excluded .dns := by decide
+/-- a root that merely has the same name but did not sign the intermediate is not consulted -/
+example : authorityValidateF [caCert "int" "root" "k1" "k0" {}]
+    [caCert "root" "root" "k0" "" { xDNS := [s "bad.example.com"] } false] { dns := [s "x.bad.example.com"] }
+    = .allow := by decide
 
 end Verif.Constraints
